@@ -542,11 +542,33 @@ func (e *env) opsB(w *world.World, depth int, path []string) []engine.Op {
 			} else {
 				data = precomp.MustPack(st, method, cAddr, big.NewInt(amt), urls)
 			}
+			pre2 := e.grantOfURL(undelegateURL)
 			okTx := e.sendTx(precomp.StakingAddr, data)
 			post := e.grantOf()
 			res.Evaluations++
 			bad := func(what string) {
 				res.AddViolation(engine.Violation{Signature: "C04|op=" + method + "|breach=allowance-arithmetic", What: what, Path: p, Detail: map[string]any{"before": pre.String(), "after": post.String(), "tx_ok": okTx}})
+			}
+			// the call lists two message types: the second one (undelegate) obeys the same arithmetic,
+			// whatever the first one's grant looks like (absent, unlimited, limited)
+			if post2 := e.grantOfURL(undelegateURL); okTx && pre2.exists && !pre2.unlimited && !pre2.expired && (method == "increaseAllowance" || method == "decreaseAllowance") {
+				want := pre2.limit.AddRaw(amt)
+				if method == "decreaseAllowance" {
+					want = pre2.limit.SubRaw(amt)
+				}
+				okSecond := true
+				switch {
+				case want.IsNegative():
+					okSecond = post2.String() == pre2.String()
+				case want.IsZero():
+					okSecond = !post2.exists || post2.limit.IsZero()
+				default:
+					okSecond = post2.exists && !post2.unlimited && post2.limit.Equal(want)
+				}
+				if !okSecond {
+					res.AddViolation(engine.Violation{Signature: "C04|op=" + method + "|breach=allowance-arithmetic-second-type", What: "an allowance change listing two message types did not change the second type's limited grant by exactly the amount",
+						Path: p, Detail: map[string]any{"first_type_before": pre.String(), "second_type_before": pre2.String(), "second_type_after": post2.String(), "amount": amt}})
+				}
 			}
 			if !okTx {
 				if post.String() != pre.String() {
@@ -598,6 +620,14 @@ func (e *env) opsB(w *world.World, depth int, path []string) []engine.Op {
 	add("nativeGrant(V1only,10)", func(p []string, res *engine.Result) string {
 		lim := sdk.NewInt64Coin(world.Denom, 10)
 		e.saveGrant(w.Addrs[f.S], e.acc("C"), []sdk.ValAddress{w.ValAddr[0]}, &lim, stakingtypes.AuthorizationType_AUTHORIZATION_TYPE_DELEGATE, w.Header.Time.Add(365*24*time.Hour))
+		return "ok"
+	})
+	add("nativeGrant(delegate,unlimited)", func(p []string, res *engine.Result) string {
+		e.saveGrant(w.Addrs[f.S], e.acc("C"), w.ValAddr, nil, stakingtypes.AuthorizationType_AUTHORIZATION_TYPE_DELEGATE, w.Header.Time.Add(365*24*time.Hour))
+		return "ok"
+	})
+	add("nativeGrant(V1only,unlimited)", func(p []string, res *engine.Result) string {
+		e.saveGrant(w.Addrs[f.S], e.acc("C"), []sdk.ValAddress{w.ValAddr[0]}, nil, stakingtypes.AuthorizationType_AUTHORIZATION_TYPE_DELEGATE, w.Header.Time.Add(365*24*time.Hour))
 		return "ok"
 	})
 	add("nativeGrant(undelegate-type)", func(p []string, res *engine.Result) string {
